@@ -142,6 +142,8 @@ pub(super) fn modpow(x: &BigUint, exponent: &BigUint, modulus: &BigUint) -> BigU
         monty_modpow(x, exponent, modulus)
     } else {
         // Otherwise do basically the same as `num::pow`, but with a modulus.
+        #[cfg(num_bigint_verif)]
+        crate::verif_probe::hit(crate::verif_probe::Probe::MODPOW_EVEN);
         plain_modpow(x, &exponent.data, modulus)
     }
 }
@@ -158,6 +160,10 @@ fn plain_modpow(base: &BigUint, exp_data: &[BigDigit], modulus: &BigUint) -> Big
     };
 
     let mut base = base % modulus;
+    #[cfg(num_bigint_verif)]
+    if i > 0 {
+        crate::verif_probe::hit(crate::verif_probe::Probe::MODPOW_EVEN_ZERO_DIGIT);
+    }
     for _ in 0..i {
         for _ in 0..big_digit::BITS {
             base = &base * &base % modulus;
